@@ -12,10 +12,18 @@
      FragmentsOnCompositeTypes (type conditions), PossibleFragmentSpreads
      (inline fragments), KnownDirectives (name and location), root operation
      type present.
-   Not expressed: named fragments (inline fragments stand for spreads),
-   OverlappingFieldsCanBeMerged (a field becoming non-null can make two
-   same-key fields conflict -- graphql-js documents the same exception),
-   rules that do not depend on the schema. *)
+   Named fragments: a document is one operation with the fragment definitions
+   it may spread; a spread is checked where it stands (fragment known,
+   PossibleFragmentSpreads against the fragment's type condition, directives),
+   the fragment's selection once at its definition, against its type condition
+   and with the operation's variables (as the specification validates).
+   Not expressed: OverlappingFieldsCanBeMerged -- the only schema-dependent
+   rule left out: a field becoming non-null (a safe output change) can make two
+   fields with the same response key in one merged scope conflict (graphql-js
+   documents the same exception); [distinct_keys] below is a decidable guard
+   under which the rule has nothing to compare.  Rules that do not depend on
+   the schema (fragment cycles, unused fragments, unique names, ...) are
+   unaffected by a schema change. *)
 From PyGql Require Export Schema.SchemaFull Spec.DifferSpec.
 
 Inductive value :=
@@ -28,7 +36,12 @@ Definition dir_uses := list (str * argvals).
 
 Inductive csel :=
 | CField (name : str) (args : argvals) (dirs : dir_uses) (sub : list csel)
-| CInline (type_condition : option str) (dirs : dir_uses) (sub : list csel).
+| CInline (type_condition : option str) (dirs : dir_uses) (sub : list csel)
+| CSpread (fragment : str) (dirs : dir_uses).
+
+(* fragment NAME on TYPE @dirs { selection } *)
+Record fragment_def := mkFrag {
+  fr_name : str; fr_type : str; fr_dirs : dir_uses; fr_sel : list csel }.
 
 Inductive op_kind := OQuery | OMutation | OSubscription.
 
@@ -36,7 +49,8 @@ Record operation := mkOp {
   o_kind : op_kind;
   o_vars : list (str * (ty * bool));      (* $name : type, has a default value *)
   o_dirs : dir_uses;
-  o_sel : list csel }.
+  o_sel : list csel;
+  o_frags : list fragment_def }.         (* the fragments of the document; validated with this operation's variables *)
 
 (* AreTypesCompatible (June-2018 5.8.5): variable type [v] where [l] is expected *)
 Fixpoint compat (v l : ty) {struct v} : bool :=
@@ -69,6 +83,10 @@ Section Client.
   Variable scalar_lit : str -> value -> bool.
   Variable s : schema.
   Variable vars : list (str * (ty * bool)).
+  Variable frags : list fragment_def.
+
+  Definition find_frag (n : str) : option fragment_def :=
+    find (fun f => str_eqb n (fr_name f)) frags.
 
   (* ValuesOfCorrectType + VariablesInAllowedPosition; [ld]: the position has a default *)
   Inductive value_ok : bool -> ty -> value -> Prop :=
@@ -140,13 +158,67 @@ Section Client.
         /\ dirs_ok (str_of_string "INLINE_FRAGMENT") dirs
         /\ (fix all (l : list csel) : Prop :=
               match l with [] => True | y :: l' => csel_ok y t /\ all l' end) sub
+    | CSpread name dirs =>
+        (* KnownFragmentNames is schema-independent; the fragment's own selection
+           is checked once, at its definition ([fragment_ok]) *)
+        exists fr, find_frag name = Some fr
+          /\ overlap parent (fr_type fr)                  (* PossibleFragmentSpreads *)
+          /\ dirs_ok (str_of_string "FRAGMENT_SPREAD") dirs
     end.
+
+  (* a fragment definition: FragmentsOnCompositeTypes / KnownTypeNames, its
+     directives, and its selection against its type condition *)
+  Definition fragment_ok (fr : fragment_def) : Prop :=
+    composite_fields s (fr_type fr) <> None
+    /\ dirs_ok (str_of_string "FRAGMENT_DEFINITION") (fr_dirs fr)
+    /\ Forall (fun x => csel_ok x (fr_type fr)) (fr_sel fr).
 
   (* KnownTypeNames + VariablesAreInputTypes for variable definitions *)
   Definition var_defs_ok (vs : list (str * (ty * bool))) : Prop :=
     Forall (fun v => exists b, user_body s (unwrap (fst (snd v))) = Some b
                                /\ (b = BScalar \/ (exists x, b = BEnum x) \/ (exists x, b = BInput x))) vs.
 End Client.
+
+(* OverlappingFieldsCanBeMerged compares pairs of distinct field selections
+   with the same response key (this model has no aliases: the key is the field
+   name) collected into one scope through inline fragments and spreads.  The
+   guard: in every selection set, after flattening fragments ([fuel] bounds
+   spread expansion), no field name occurs twice. *)
+Fixpoint scope_keys (fuel : nat) (frags : list fragment_def) (l : list csel) : list str :=
+  match fuel with
+  | 0 => []
+  | Datatypes.S fuel' =>
+      flat_map (fun x =>
+        match x with
+        | CField name _ _ _ => [name]
+        | CInline _ _ sub => scope_keys fuel' frags sub
+        | CSpread name _ =>
+            match find (fun f => str_eqb name (fr_name f)) frags with
+            | Some fr => scope_keys fuel' frags (fr_sel fr)
+            | None => []
+            end
+        end) l
+  end.
+
+Fixpoint nodup_str (l : list str) : bool :=
+  match l with [] => true | x :: l' => negb (mem_str x l') && nodup_str l' end.
+
+Fixpoint distinct_keys (fuel : nat) (frags : list fragment_def) (l : list csel) {struct fuel} : bool :=
+  match fuel with
+  | 0 => true
+  | Datatypes.S fuel' =>
+      nodup_str (scope_keys fuel frags l)
+      && forallb (fun x =>
+           match x with
+           | CField _ _ _ sub => distinct_keys fuel' frags sub
+           | CInline _ _ sub => distinct_keys fuel' frags sub
+           | CSpread _ _ => true
+           end) l
+  end.
+
+Definition doc_distinct_keys (fuel : nat) (op : operation) : bool :=
+  distinct_keys fuel (o_frags op) (o_sel op)
+  && forallb (fun fr => distinct_keys fuel (o_frags op) (fr_sel fr)) (o_frags op).
 
 Definition root_of (s : schema) (k : op_kind) : option str :=
   match k with OQuery => s_query s | OMutation => s_mutation s | OSubscription => s_subscription s end.
@@ -156,7 +228,8 @@ Definition op_ok (scalar_lit : str -> value -> bool) (s : schema) (op : operatio
     root_of s (o_kind op) = Some root /\ composite_fields s root <> None
     /\ var_defs_ok s (o_vars op)
     /\ dirs_ok scalar_lit s (o_vars op) (op_location (o_kind op)) (o_dirs op)
-    /\ Forall (fun x => csel_ok scalar_lit s (o_vars op) x root) (o_sel op).
+    /\ Forall (fun x => csel_ok scalar_lit s (o_vars op) (o_frags op) x root) (o_sel op)
+    /\ Forall (fragment_ok scalar_lit s (o_vars op) (o_frags op)) (o_frags op).
 
 (* ------------------------------------------------ positions, at schema level *)
 (* "every output position is at least as strict as before and every input
